@@ -78,8 +78,45 @@ FlatMap(G, revs, r) == IF r > Len(G) THEN <<>>
                        ELSE (IF r \in revs THEN <<r, Len(G[r])>> \o G[r] ELSE <<>>) \o FlatMap(G, revs, r + 1)
 Main(W) == LeftHand(W.G, W.tip)                          \* oldest first; <<>> for a null tip
 
-(* ================================ the operations ================================ *)
-Do(W, a) ==
+(* ---- the merge-sorted view of the branch (Branch.iter_merge_sorted_revisions, newest first) and the dotted revnos
+        (get_revision_id_to_revno_map): both are derived by the CLIENT from the tip and the graph and cached on the
+        branch object, which is why they are read here.  Rows <<revision, merge depth, x, y, z>>: a mainline revision
+        has depth 0 and revno x (y = z = 0); the revisions a mainline revision merged follow it, newest first, with
+        depth 1 and the dotted revno base.branch.index.  Defined for graphs in which what a merge brings in is one
+        chain whose oldest revision's left parent is on the mainline below the merge (ChainMerges; the universe and the
+        client's commits only produce such graphs): base = revno of that left parent, branch = how many-th such chain
+        off that base (in mainline order), index = position in the chain, oldest = 1. *)
+ChainOf(G, r) == MergedBy(G, r)                           \* Dag: ancestry of r beyond r itself and its left parent's
+ChainBase(G, lh, r) == LET p == LeftParent(G, Min(ChainOf(G, r)))
+                       IN IF p = Null THEN 0 ELSE CHOOSE k \in DOMAIN lh : lh[k] = p
+RowsAt(G, lh, i) ==
+    LET r == lh[i]
+        S == ChainOf(G, r)
+        base == ChainBase(G, lh, r)
+        br == 1 + Cardinality({j \in 1..(i - 1) : ChainOf(G, lh[j]) # {} /\ ChainBase(G, lh, lh[j]) = base})
+        chain == SetToSortSeq(S, >)
+    IN <<<<r, 0, i, 0, 0>>>> \o (IF S = {} THEN <<>>
+                                ELSE [k \in DOMAIN chain |-> <<chain[k], 1, base, br, Cardinality({s \in S : s <= chain[k]})>>])
+RECURSIVE RowsDown(_, _, _)
+RowsDown(G, lh, i) == IF i = 0 THEN <<>> ELSE RowsAt(G, lh, i) \o RowsDown(G, lh, i - 1)
+MergeSorted(W) == RowsDown(W.G, Main(W), Len(Main(W)))
+RevnoMap(W) == LET rows == MergeSorted(W)
+                   revs == SetToSortSeq({rows[k][1] : k \in DOMAIN rows}, <)
+               IN [j \in DOMAIN revs |-> LET k == CHOOSE k \in DOMAIN rows : rows[k][1] = revs[j]
+                                         IN <<revs[j], rows[k][3], rows[k][4], rows[k][5]>>]
+ChainMerges(G) ==
+    \A r \in DOMAIN G : Len(G[r]) > 1 =>
+        LET S == ChainOf(G, r) IN
+        /\ S # {}
+        /\ \A s \in S : Len(G[s]) <= 1 /\ (s = Min(S) \/ G[s] = <<Max({t \in S : t < s})>>)
+        /\ LeftParent(G, Min(S)) \in {Null} \cup SeqRange(LeftHand(G, LeftParent(G, r)))
+
+(* ================================ the operations ================================
+   State-changing operations: Change(W, a) = world after + return value.  Everything else only looks: Look(W, a) is its
+   return value and the world stays as it is.  Do(W, a) puts the two together; Effect(W, a) is the world after alone
+   (what the state machine needs - it spares computing the values of the reads). *)
+Mutators == {"commit", "fetch", "settip", "genhist", "pull", "push", "settag", "deltag", "setcfg", "lock", "unlock"}
+Change(W, a) ==
     LET op == a[1] IN
     CASE op = "commit" ->                                         \* MemoryTree.commit on the branch; returns the new id
            LET new == Len(W.G) + 1
@@ -100,26 +137,33 @@ Do(W, a) ==
            IF ~Locked(W) THEN Err(W, "LockNotHeld")
            ELSE IF W.held > 1 THEN Ok([W EXCEPT !.held = @ - 1], <<>>)
            ELSE Ok([W EXCEPT !.held = 0, !.pend = 0, !.cfg = IF W.pend # 0 THEN W.pend ELSE @], <<>>)
-      \* a second client object (same access path): lock_write(token of the holder) . unlock - succeeds with that token
-      [] op = "relock" -> Ok(W, <<0>>)
-      [] op = "badtoken" -> Err(W, "TokenMismatch")               \* ... lock_write(a token nobody issued)
-      [] op = "contend" -> IF Locked(W) THEN Err(W, "LockContention") ELSE Ok(W, <<1>>)   \* ... lock_write() . unlock
-      (* reads *)
-      [] op = "lastinfo" -> Ok(W, <<W.revno, W.tip>>)
+Val(v) == [err |-> "", val |-> v]
+Refusal(e) == [err |-> e, val |-> <<>>]
+Look(W, a) ==
+    LET op == a[1] IN
+    \* a second client object (same access path): lock_write(token of the holder) . unlock - succeeds with that token
+    CASE op = "relock" -> Val(<<0>>)
+      [] op = "badtoken" -> Refusal("TokenMismatch")              \* ... lock_write(a token nobody issued)
+      [] op = "contend" -> IF Locked(W) THEN Refusal("LockContention") ELSE Val(<<1>>)    \* ... lock_write() . unlock
+      [] op = "lastinfo" -> Val(<<W.revno, W.tip>>)
       [] op = "revnoof" -> LET i == {k \in DOMAIN Main(W) : Main(W)[k] = a[2]}    \* revision_id_to_revno
-                           IN IF i = {} THEN Err(W, "NoSuchRevision") ELSE Ok(W, <<CHOOSE k \in i : TRUE>>)
-      [] op = "revidat" -> IF a[2] = 0 THEN Ok(W, <<Null>>)                               \* get_rev_id
-                           ELSE IF a[2] > W.revno THEN Err(W, "RevnoOutOfBounds") ELSE Ok(W, <<Main(W)[a[2]]>>)
-      [] op = "parentmap" -> Ok(W, FlatMap(W.G, W.revs, 1))       \* get_parent_map(every id of G and one unknown id)
+                           IN IF i = {} THEN Refusal("NoSuchRevision") ELSE Val(<<CHOOSE k \in i : TRUE>>)
+      [] op = "revidat" -> IF a[2] = 0 THEN Val(<<Null>>)                                 \* get_rev_id
+                           ELSE IF a[2] > W.revno THEN Refusal("RevnoOutOfBounds") ELSE Val(<<Main(W)[a[2]]>>)
+      [] op = "parentmap" -> Val(FlatMap(W.G, W.revs, 1))         \* get_parent_map(every id of G and one unknown id)
+      [] op = "askabsent" -> Val(<<>>)                            \* get_parent_map(the id the NEXT commit will get): not there
       \* get_revision + revision_tree: <<tree id, 1 = recorded metadata intact>> \o parents
-      [] op = "readrev" -> IF a[2] \in W.revs THEN Ok(W, <<a[2], 1>> \o W.G[a[2]]) ELSE Err(W, "NoSuchRevision")
-      [] op = "tags" -> Ok(W, <<W.tags["t1"], W.tags["t2"]>>)
-      [] op = "getcfg" -> Ok(W, <<IF W.pend # 0 THEN W.pend ELSE W.cfg>>)
-      [] op = "allrevs" -> Ok(W, SetToSortSeq(W.revs, <))
-      [] op = "pullout" -> Ok(W, OutOf(W))                        \* L.pull(branch) into a fresh empty L
-      [] op = "pushout" -> Ok(W, OutOf(W))                        \* branch.push(L)
+      [] op = "readrev" -> IF a[2] \in W.revs THEN Val(<<a[2], 1>> \o W.G[a[2]]) ELSE Refusal("NoSuchRevision")
+      [] op = "mergesorted" -> Val(FlattenSeq(MergeSorted(W)))    \* list(iter_merge_sorted_revisions())
+      [] op = "revnomap" -> Val(FlattenSeq(RevnoMap(W)))          \* get_revision_id_to_revno_map(), by revision
+      [] op = "tags" -> Val(<<W.tags["t1"], W.tags["t2"]>>)
+      [] op = "getcfg" -> Val(<<IF W.pend # 0 THEN W.pend ELSE W.cfg>>)
+      [] op = "allrevs" -> Val(SetToSortSeq(W.revs, <))
+      [] op = "pullout" -> Val(OutOf(W))                          \* L.pull(branch) into a fresh empty L
+      [] op = "pushout" -> Val(OutOf(W))                          \* branch.push(L)
+Do(W, a) == IF a[1] \in Mutators THEN Change(W, a) ELSE [W |-> W, out |-> Look(W, a)]
+Effect(W, a) == IF a[1] \in Mutators THEN Change(W, a).W ELSE W
 
-Mutators == {"commit", "fetch", "settip", "genhist", "pull", "push", "settag", "deltag", "setcfg", "lock", "unlock"}
 \* operations RemoteBranch can only do through its VFS fallback (_ensure_real): not available on a server without VFS
 VfsOps == {"commit", "pull", "pushout"}
 
